@@ -34,6 +34,15 @@ import "github.com/f1bonacc1/process-compose/src/app"
 
 // VerifRunHeadless exposes runHeadless to the simulation harness (scratch copy only).
 func VerifRunHeadless(p *app.ProjectRunner) error { return runHeadless(p) }
+
+// VerifRunProject exposes runProject - what "up" does after it has built the runner - without a
+// TUI and with or without --keep-project.
+func VerifRunProject(p *app.ProjectRunner, keep bool) error {
+	*pcFlags.IsTuiEnabled = false
+	*pcFlags.KeepProjectOn = keep
+	*pcFlags.UnixSocketPath = ""
+	return runProject(p)
+}
 EOM
 cat > "$SCRATCH/repo/src/client/zz_verif_export.go" <<EOM
 package client
